@@ -617,10 +617,21 @@ int process_patch(const Options& options)
         File tmp_reject_file = File::create_temporary();
         RejectWriter reject_writer(patch, tmp_reject_file, options.reject_format);
 
-        if (filesystem::exists(file_to_patch) && !filesystem::is_regular_file(file_to_patch)) {
+        // The new name of a rename or copy may be taken by something which is no file either.
+        // NOTE: with -o what is written to is whatever we were told to write to.
+        auto is_not_a_regular_file = [](const std::string& path) {
+            return filesystem::exists(path) && !filesystem::is_regular_file(path);
+        };
+        std::string not_a_regular_file;
+        if (is_not_a_regular_file(file_to_patch))
+            not_a_regular_file = file_to_patch;
+        else if (options.out_file_path.empty() && output_file != file_to_patch && is_not_a_regular_file(output_file))
+            not_a_regular_file = output_file;
+
+        if (!not_a_regular_file.empty()) {
             if (should_parse_body)
                 parser.parse_patch_body(patch);
-            out << "File " << file_to_patch << " is not a regular file --";
+            out << "File " << not_a_regular_file << " is not a regular file --";
             refuse_to_patch(out, mode, output_file, patch, options, reject_files);
             had_failure = true;
             continue;
